@@ -96,7 +96,7 @@ Proof.
   assert (L : length (s i1) = length (s i2)) by (rewrite H1, H2, !map_length; exact L12).
   pose proof (direct_exact (fun u : option T => u) fuel (Some a) (Some b) i1 i2 io s L) as P.
   unfold post, post_opt in *.
-  destruct (lincomb_fuel _ _ Direct _ s) as [s' | |]; try contradiction.
+  destruct (lincomb_fuel _ _ Direct _ s) as [s' | | |]; try contradiction.
   destruct P as [Po Pf]. split; [|exact Pf].
   rewrite Po, map_id, H1, H2.
   apply nth_error_ext; intro k. unfold vlin.
@@ -126,8 +126,9 @@ Proof.
       change (lincomb_fuel 1 (fun u => u) Fallback ?e s)
         with (exec_list (lincomb_fuel 0 (fun u : option T => u) Fallback) Fallback e alias_tree s).
       pose proof (tree_no_rec_opt (lincomb_fuel 0 (fun u => u) Fallback) Fallback (a + b) (of_Z 0) i1 i1 io s x1 x1) as P.
-      destruct (exec_list _ Fallback _ alias_tree s) as [s' | |]; cbn [bind post_opt] in *.
+      destruct (exec_list _ Fallback _ alias_tree s) as [s' | | |]; cbn [bind post_opt] in *.
       * rewrite vlin_merge in P. apply P; try assumption; congruence.
+      * apply P; try assumption; congruence.
       * apply P; try assumption; congruence.
       * apply P; try assumption; congruence.
     + change (post_opt a x1 b x2 io s (exec_list (lincomb_fuel 1 (fun u => u) Fallback) Fallback
@@ -145,8 +146,9 @@ Proof.
       change (lincomb_fuel 1 (fun u => u) Blas ?e s)
         with (exec_list (lincomb_fuel 0 (fun u : option T => u) Blas) Blas e alias_tree s).
       pose proof (tree_no_rec_opt (lincomb_fuel 0 (fun u => u) Blas) Blas (a + b) (of_Z 0) i1 i1 io s x1 x1) as P.
-      destruct (exec_list _ Blas _ alias_tree s) as [s' | |]; cbn [bind post_opt] in *.
+      destruct (exec_list _ Blas _ alias_tree s) as [s' | | |]; cbn [bind post_opt] in *.
       * rewrite vlin_merge in P. apply P; try assumption; congruence.
+      * apply P; try assumption; congruence.
       * apply P; try assumption; congruence.
       * apply P; try assumption; congruence.
     + change (post_opt a x1 b x2 io s (exec_list (lincomb_fuel 1 (fun u => u) Blas) Blas
@@ -208,7 +210,7 @@ Lemma lincomb_poison_ok (r : regime) (a b : T) (i1 i2 io : nat) (s : store (opti
 Proof.
   intros H1 H2 L12 Lo.
   pose proof (lincomb_fuel_poison r a b i1 i2 io s x1 x2 H1 H2 L12 Lo) as P.
-  unfold post_opt in P. destruct (lincomb_fuel _ _ _ _ s) as [s' | |]; [eauto | contradiction | contradiction].
+  unfold post_opt in P. destruct (lincomb_fuel _ _ _ _ s) as [s' | | |]; [eauto | contradiction | contradiction | contradiction].
 Qed.
 
 Lemma set_zero_direct_counterexample :
